@@ -39,6 +39,8 @@ with names_graph (g : mgraph) : list string :=
 Definition global_unique (g : mgraph) : bool := nodupb String.eqb (defs_graph g).
 Definition node_names_unique (g : mgraph) : bool := nodupb String.eqb (nonempty (names_graph g)).
 Definition imports_unique (m : model) : bool := nodupb String.eqb (map fst (mimports m)).
+Definition floor_ok (m : model) : bool :=
+  match lookup String.eqb "" (mimports m) with Some v => Nat.leb 14 v | None => false end.
 
 (* ---------- emitted-once: source nodes of everything emitted ---------- *)
 Fixpoint srcs_node (n : mnode) : list nref :=
@@ -213,7 +215,7 @@ Definition validators (p : prog) (r : request) (m : model) : bool :=
   match all_vars (r_inputs r), all_vars (r_outputs r) with
   | Some inputs, Some outputs =>
     let p' := with_main p (Some (main_args inputs)) outputs in
-    global_unique (mmain m) && node_names_unique (mmain m) && imports_unique m &&
+    global_unique (mmain m) && node_names_unique (mmain m) && imports_unique m && floor_ok m &&
     emitted_once p' (mmain m) && placed p' (mmain m) && check_plan p' 0 (mmain m) &&
     functions_exact p' m && function_imports_cover p' m && function_plans p' m && inline_blocks_alpha p' m &&
     io_exact p' inputs outputs (r_drop r) (depends_on p' 0) (mmain m)
